@@ -112,7 +112,7 @@ func isSingle(v string) bool {
 	return v == "RESPONSE_STATUS" || v == "MATCHED_VAR" || v == "MATCHED_VAR_NAME" || v == "ARGS_COMBINED_SIZE"
 }
 
-var ModelTrans = []string{"lowercase", "uppercase", "trim", "length", "removeNulls", "hexEncode", "none", "base64Encode", "md5", "sha1", "trimLeft", "trimRight"}
+var ModelTrans = []string{"lowercase", "uppercase", "trim", "length", "removeNulls", "hexEncode", "none", "base64Encode", "md5", "sha1", "trimLeft", "trimRight", "hexDecode"}
 
 func Trans(r R, max int) []string {
 	n := 0
